@@ -32,7 +32,7 @@ def do_import():
             p = os.path.join(d, 'patch%d.diff' % k)
             if not os.path.exists(p):
                 continue
-            dst = os.path.join(SEEDED, '%sm%d' % (pid, k))
+            dst = os.path.join(SEEDED, '%sm%d' % (pid, k + int(os.environ.get('MUT_OFFSET', '0'))))
             os.makedirs(dst, exist_ok=True)
             shutil.copy(p, os.path.join(dst, 'patch.diff'))
             shutil.copy(os.path.join(d, 'demo%d.py' % k), os.path.join(dst, 'demo.py'))
